@@ -1,4 +1,5 @@
 // C12 harness header: comments and names that stress the length-prefixed string encoding.
+__begin_publish
 /* 7 */
 int seven();
 //
@@ -15,4 +16,5 @@ int non_ascii();
 #define QUOTE "\""
 #define MULTI 1 + \
   2
+__end_publish
 struct S { __published: int a; };
